@@ -911,7 +911,7 @@ func (c *ctl) CommitCertificate(*lib.QuorumCertificate, *lib.Block, *lib.BlockRe
 	return nil
 }
 func (c *ctl) GossipBlock(*lib.QuorumCertificate, []byte, uint64) {}
-func (c *ctl) GossipConsensus(*bft.Message, []byte)             {}
+func (c *ctl) GossipConsensus(*bft.Message, []byte)               {}
 
 // certGate mirrors Controller.HandlePeerBlock up to CommitCertificate.
 func (c *ctl) certGate(qc *lib.QuorumCertificate) lib.ErrorI {
